@@ -5745,7 +5745,14 @@ type getThisDynamic struct{}
 func (getThisDynamic) exec(vm *vm) {
 	for stash := vm.stash; stash != nil; stash = stash.outer {
 		if stash.obj == nil {
-			if v, exists := stash.getByName(thisBindingName); exists {
+			if idx, exists := stash.names[thisBindingName]; exists {
+				v := stash.values[idx&^maskTyp]
+				if v == nil {
+					// derived constructor before super(): 'this' (also as the receiver of super.x) is not readable,
+					// no matter whether it is reached statically or from eval code
+					vm.throw(vm.r.newError(vm.r.getReferenceError(), "Must call super constructor in derived class before accessing 'this'"))
+					return
+				}
 				vm.push(v)
 				vm.pc++
 				return
